@@ -923,9 +923,7 @@ impl<'a> Ctx<'a> {
         let pre = self.snap.clone();
         self.w.v.take_invocations();
         self.w.v.fail_plan.replace(inject);
-        let t0 = std::time::Instant::now();
         let res = exec::<()>(&self.w.v, &SYSTEM_ACTOR_ADDR, &CRON_ACTOR_ADDR, &TokenAmount::zero(), CronMethod::EpochTick as u64, None);
-        self.bump("usec_in_tick_exec", t0.elapsed().as_micros() as u64);
         self.w.v.fail_plan.replace(None);
         let t = self.w.v.take_invocations().pop().unwrap();
         let c = code(&res);
@@ -934,9 +932,7 @@ impl<'a> Ctx<'a> {
             self.fail("cron-tick-failed", format!("EpochTick at {} returned exit code {}", e, c));
         }
         self.w.v.set_epoch(e + 1);
-        let t1 = std::time::Instant::now();
         let post = snapshot(&self.w);
-        self.bump("usec_in_tick_snapshot", t1.elapsed().as_micros() as u64);
 
         // ---- trace -> model inputs ----
         let pnode = t.subinvocations.iter().find(|s| s.to == STORAGE_POWER_ACTOR_ADDR);
